@@ -80,11 +80,51 @@ def const_eval(e, env):
         and e.func.attr == "compile"
         and isinstance(e.func.value, ast.Name)
         and e.func.value.id == "re"
-        and len(e.args) == 1
-        and isinstance(e.args[0], ast.Constant)
     ):
-        return ("re", e.args[0].value)
+        return ("re", re_compile_text(e))
     raise Fail("not a constant expression: " + ast.unparse(e), e)
+
+
+RE_FLAG_LETTERS = {"I": "i", "IGNORECASE": "i", "M": "m", "MULTILINE": "m", "S": "s", "DOTALL": "s", "X": "x", "VERBOSE": "x",
+                   "A": "a", "ASCII": "a", "U": "u", "UNICODE": "u", "L": "L", "LOCALE": "L"}
+
+
+def re_flag_letters(e):
+    """`re.I | re.M`, `re.IGNORECASE`, `0` -> set of inline-flag letters; anything else is a hard failure"""
+    if isinstance(e, ast.Constant) and e.value == 0 and not isinstance(e.value, bool):
+        return set()
+    if isinstance(e, ast.Attribute) and isinstance(e.value, ast.Name) and e.value.id == "re" and e.attr in RE_FLAG_LETTERS:
+        return {RE_FLAG_LETTERS[e.attr]}
+    if isinstance(e, ast.BinOp) and isinstance(e.op, ast.BitOr):
+        return re_flag_letters(e.left) | re_flag_letters(e.right)
+    f = Fail("re.compile flags outside the translated subset: " + ast.unparse(e), e)
+    f.hard = True
+    raise f
+
+
+def re_compile_text(e):
+    """The pattern text of `re.compile(<str literal>[, flags][, flags=...])` with the flags folded in as Python's
+    own inline group `(?imsx...)` in front, so that `re.compile(p, re.I)` and `re.compile('(?i)' + p)` translate to
+    the same text and a model that does not implement a flag rejects the pattern.  Every argument is looked at:
+    anything not understood is a *hard* translation failure (never a silently dropped constant)."""
+    def hard(msg, node):
+        f = Fail(msg, node)
+        f.hard = True
+        raise f
+
+    if not e.args or not (isinstance(e.args[0], ast.Constant) and isinstance(e.args[0].value, str)):
+        hard("re.compile: the pattern is not a string literal: " + ast.unparse(e), e)
+    if len(e.args) > 2:
+        hard("re.compile: unexpected positional arguments: " + ast.unparse(e), e)
+    letters = set()
+    if len(e.args) == 2:
+        letters |= re_flag_letters(e.args[1])
+    for kw in e.keywords:
+        if kw.arg != "flags" or len(e.args) == 2:
+            hard("re.compile: unexpected keyword argument: " + ast.unparse(e), e)
+        letters |= re_flag_letters(kw.value)
+    pat = e.args[0].value
+    return ("(?%s)" % "".join(sorted(letters)) if letters else "") + pat
 
 
 def module_consts(tree, env):
@@ -100,7 +140,9 @@ def module_consts(tree, env):
             continue
         try:
             v = const_eval(val, out)
-        except Fail:
+        except Fail as f:
+            if getattr(f, "hard", False):  # e.g. a compiled pattern whose arguments are not all understood
+                raise
             continue
         out[tgt] = v
         found[tgt] = v
@@ -493,6 +535,13 @@ def locate(fn, loc):
         if len(hits) <= loc[2]:
             raise Fail("%s: no augmented assignment #%d to %s" % (fn.name, loc[2], loc[1]), fn)
         return hits[loc[2]].value
+    if kind == "for_range":
+        # the single argument of the nth (source order) `for … in range(<expr>)`
+        hits = sorted((n for n in ast.walk(fn) if isinstance(n, ast.For) and isinstance(n.iter, ast.Call) and ast.unparse(n.iter.func) == "range"
+                       and len(n.iter.args) == 1 and not n.iter.keywords), key=lambda n: (n.lineno, n.col_offset))
+        if len(hits) <= loc[1]:
+            raise Fail("%s: no `for … in range(<expr>)` loop #%d" % (fn.name, loc[1]), fn)
+        return hits[loc[1]].iter.args[0]
     if kind == "slice_upper":
         # upper bound of the nth (source order) slice `base[lo:hi]`
         hits = sorted((n for n in ast.walk(fn) if isinstance(n, ast.Subscript) and isinstance(n.slice, ast.Slice) and ast.unparse(n.value) == loc[1]
@@ -706,9 +755,17 @@ def gen(repo, outdir, selftest_out=None):
     # ---- constants
     env = {}
     per_file = {}
-    cenv, _found = module_consts(tree("const.py"), {})
+    try:
+        cenv, _found = module_consts(tree("const.py"), {})
+    except Fail as f:
+        f.file = f.file or "const.py"
+        raise
     for rel, wanted in CONST_FILES:
-        fenv, found = module_consts(tree(rel), cenv)
+        try:
+            fenv, found = module_consts(tree(rel), cenv)
+        except Fail as f:
+            f.file = f.file or rel
+            raise
         per_file[rel] = (fenv, found)
         if rel == "const.py":
             wanted = [k for k in found if k.startswith("_") and k not in ("_MDNS_ADDR", "_MDNS_ADDR6", "_IPPROTO_IPV6", "_CLASSES", "_TYPES")]
@@ -770,6 +827,13 @@ def gen(repo, outdir, selftest_out=None):
             try:
                 e = locate(fn, loc)
             except Fail:
+                if rty == "src":
+                    # a shape pin never breaks the translation (that would hit every property): the statement is
+                    # simply recorded as not found, and the one GenFacts lemma that states its text fails
+                    by_mod.setdefault(mod, []).append(
+                        "/-- `%s` (%s): shape pin %r NOT FOUND in the working tree -/\ndef %s : String :=\n  \"<not found>\"\n"
+                        % (qual, rel, loc[1:], lname))
+                    continue
                 # opts["absent"]: the test may legitimately not exist in the tree (a check that a pending
                 # `fix:` adds); the leaf then is the given constant -- "the check never fires" -- and
                 # the GenFacts lemma about it fails, so the property's proof stage still reports it.
@@ -787,6 +851,13 @@ def gen(repo, outdir, selftest_out=None):
                         "/-- `%s` (%s): no test matching %r in the working tree -/\ndef %s %s : Bool :=\n  %s\n"
                         % (qual, rel, loc[1:-1], lname, sig, opts["absent"]))
                     continue
+            if rty == "src":
+                # a *shape pin*: the located expression as source text (ast.unparse), for statements whose meaning is
+                # hand-modelled; the property's GenFacts states the expected text, so an edit breaks that proof only
+                by_mod.setdefault(mod, []).append(
+                    "/-- `%s` (%s:%d), source text of the located expression -/\ndef %s : String :=\n  %s\n"
+                    % (qual, rel, getattr(e, "lineno", fn.lineno), lname, lean_str(ast.unparse(e))))
+                continue
             tr = Tr(fenv, {p[0]: (p[1], p[2]) for p in params}, nat=opts.get("nat", False), file=rel)
             if rty == "bool":
                 body = tr.boolean(e)
